@@ -570,6 +570,9 @@ def _integral(fl, R, rng, budget, seed=0, **kw):
     integral-batch-value."""
     import numpy as np
     widths = [(0.0, 1.0), (-1.0, 1.0), (-5.0, -2.0), (0.0, 1e-9), (1.0, 1.000001), (-1e6, 1e6), (0.0, 1e100), (-3e50, 1e50), (10.0, 30.0)]
+    # every other case uses ONE long-lived defuzzifier object per class whose resolution is changed between cases (attribute assignment or configure()), as an
+    # engine whose output variable is re-configured does: nothing may be remembered from the earlier resolution or range
+    held, rng_h = {}, random.Random(f"{seed}:held-defuzzifiers")
     for case in range(2 * budget):
         lo, hi = rng.choice(widths) if rng.random() < 0.7 else (lambda a, w: (a, a + w))(rng.uniform(-100, 100), 10 ** rng.uniform(-6, 6))
         r = rng.choice([1, 2, 3, 4, 5, 7, 10, 10, 100, 100, 1000 if case % 8 == 0 else 50, rng.randint(1, 1000 if case % 8 == 0 else 120)])
@@ -602,7 +605,16 @@ def _integral(fl, R, rng, budget, seed=0, **kw):
         got = {}
         for D in _INTEGRAL:
             call = f"{call0}; fl.{D}({r}).defuzzify(agg, {lo!r}, {hi!r})"
-            z = R.lib(f"{D}.defuzzify", call, getattr(fl, D)(r).defuzzify, agg, lo, hi)
+            dz = getattr(fl, D)(r)
+            if case % 2 == 1:
+                dz = held.setdefault(D, dz)
+                how = rng_h.choice(["resolution", "configure"])
+                if how == "resolution":
+                    dz.resolution = r
+                else:
+                    dz.configure(str(r))
+                call = f"{call0}; d = <the {D} object used in the earlier cases>; d.{'resolution = ' + str(r) if how == 'resolution' else 'configure(' + repr(str(r)) + ')'}; d.defuzzify(agg, {lo!r}, {hi!r})"
+            z = R.lib(f"{D}.defuzzify", call, dz.defuzzify, agg, lo, hi)
             if z is _CRASHED:
                 continue
             if np.size(z) != 1:
